@@ -22,6 +22,13 @@
 (* never enter TLC: the harness evaluates the polynomials with the float G  *)
 (* and matches observed floats to them within a rounding tolerance.         *)
 (*                                                                          *)
+(* The registry.  A conversion is computed from the table of the registry   *)
+(* the quantity's unit is bound to: the table read here IS that registry's  *)
+(* table.  The `user` instance is a registry made by the caller (symbols    *)
+(* added that exist nowhere else, symbols re-calibrated - among them base   *)
+(* units of the stock unit systems); its predicted numbers and the meaning  *)
+(* of a resulting unit come from that table, never from the default one.    *)
+(*                                                                          *)
 (* The table (symbol, scale, offset, dimension vector, prefixable), the     *)
 (* prefixes and the em_conversions table are regenerated from the tree on   *)
 (* every run and read from IOEnv.C03_DATA.  Units are referred to by name;  *)
